@@ -543,6 +543,10 @@ class ReplaceOperators(ast.NodeTransformer):
     
 class ReplaceExpr(ast.NodeTransformer):
     def visit_Expr(self, node):
+        # an expression statement is a call already turned into an assignment / comment by the
+        # previous passes, or a docstring; a bare expression has no Verilog statement form
+        if isinstance(node.value, (ast.BinOp, ast.BoolOp, ast.UnaryOp, ast.Compare, ast.IfExp, ast.Name, ast.Attribute)):
+            raise TranspilationException('Expression statement not supported: {}'.format(ast.unparse(node)))
         
         return node.value
 
